@@ -52,7 +52,9 @@ MANIFEST = dict(
 )
 
 THEOREMS = ["C07_fold_partial", "C07_fold_any_folds", "C07_fold_toy", "C07_parse_concat_one_tok", "C07_parse_concat_toy", "C07_parse_concat_skeleton",
-            "C07_semicolon_before_fix_refuted", "C07_save_lines", "C07_save_replay", "C07_clone"]
+            "C07_semicolon_before_fix_refuted", "C07_save_lines", "C07_save_replay", "C07_clone",
+            "C07_parse_concat_syntax_canonical", "C07_parse_concat_syntax_single_line",
+            "C07_statement_locality_printed", "C07_vm_compile_is_fold", "C07_vm_joined_is_fold"]
 FINDING_SEMI = "C07-semicolon-before-newline"
 
 
@@ -386,7 +388,7 @@ def run(chk):
     timpl = S.run_sessions(binary, [S.toy_case_fields(t, o) for t, o in toy])
     items = [(S.toy_case_coq(t, o), "\t".join(timpl[n])) for n, (t, o) in enumerate(toy)]
     bad_model = common.coq_mismatches(S.COQ_IMPORTS + ["Gen.CtxSkeleton"], items, "c07",
-                                      shard_size=max(8, -(-len(items) // common.NPROC)))
+                                      shard_size=min(60, max(8, -(-len(items) // common.NPROC))), timeout=2400)
 
     # premise (b) on the real parser: all ordered pairs of the statement alphabet
     pc = parse_concat_cases()
